@@ -278,18 +278,20 @@ def run_check(prop, tier, only=None, keep=False, extra=None):
     costs = load_costs()
     deferred = []
     if tier == "quick" and not only:
-        keep = []
+        kept = []
         for h in harnesses:
             c = costs.get(h.hid)
             # a harness that did not decide within the quick budget on the reference tree is left to the thorough tier
             if c and c.get("status") == "UNKNOWN" and c.get("timeout", 0) >= h.timeout:
                 deferred.append(h.hid)
+            elif c and c.get("status") == "CONFIRMED" and c.get("cpu", 0) > 90:
+                deferred.append(h.hid)  # decided, but too expensive for the every-change tier
             else:
-                keep.append(h)
-        harnesses = keep
+                kept.append(h)
+        harnesses = kept
     for h in harnesses:
         c = costs.get(h.hid)
-        if c and c.get("status") in ("CONFIRMED", "REFUTED"):
+        if c and c.get("status") == "CONFIRMED":
             h.timeout = int(min(max(h.timeout if tier == "thorough" else 0, 20, 4 * c.get("cpu", 0)), 900))
     ids = [h.hid for h in harnesses]
     assert len(ids) == len(set(ids)), "duplicate harness ids: %s" % [i for i in ids if ids.count(i) > 1]
